@@ -207,18 +207,36 @@ func finish(sc *Scenario, tr *Tracer, out *RunResult, sdDur chan time.Duration, 
 	case <-time.After(2 * time.Second):
 	}
 	quiet(sc, 500*time.Millisecond)
-	evBefore := tr.Events()
-	serves, shutdowns := 0, 0
-	for _, e := range evBefore {
-		switch e.Point {
-		case "serve.call":
-			serves++
-		case "sd.begin":
-			shutdowns++
+	// The last life of the service may still be running: the schedule had no Shutdown for it, or its
+	// Shutdown came while the service was still starting and was refused as not-started. Stop it now.
+	count := func() (serves, started, sdBegun, sdEnded, sdOK int) {
+		for _, e := range tr.Events() {
+			switch e.Point {
+			case "serve.go":
+				serves++
+			case "sv.started":
+				started++
+			case "sd.begin":
+				sdBegun++
+			case "sd.ret":
+				sdEnded++
+				if argS(e, 0) == "<nil>" {
+					sdOK++
+				}
+			}
 		}
+		return
 	}
-	if shutdowns < serves {
-		// the last life of the service is still running: stop it now
+	settle := time.Now().Add(2 * time.Second)
+	for time.Now().Before(settle) {
+		// let Shutdown calls that the opened gates released come back, and a starting Serve get started
+		serves, started, sdBegun, sdEnded, sdOK := count()
+		if sdBegun == sdEnded && (sdOK >= serves || started >= serves) {
+			break
+		}
+		time.Sleep(500 * time.Microsecond)
+	}
+	if serves, _, _, _, sdOK := count(); sdOK < serves {
 		sc.StartCleanupShutdown(sdDur)
 	}
 	// wait for every role goroutine (producers, api, sd, serve)
